@@ -697,8 +697,11 @@ func c12Samples(c *mc.Check, maxLen int) {
 		}
 		l.Flush()
 	})
-	for _, n := range []int{7, 10, 33, 100, 299, 300} {
-		for _, kind := range []int{0, 1, 2, 3} {
+	// kinds 4–7: many values of one small or large magnitude (sec/op-sized, 1e-7; and 1e7), alone, ascending
+	// small-then-large, and interleaved: their running product leaves the normal float range (into the subnormals,
+	// to zero, or to +Inf) although their geometric mean is unremarkable
+	for _, n := range []int{7, 10, 33, 40, 45, 46, 47, 48, 50, 92, 100, 299, 300} {
+		for _, kind := range []int{0, 1, 2, 3, 4, 5, 6, 7} {
 			xs := make([]float64, n)
 			for i := range xs {
 				switch kind {
@@ -710,6 +713,22 @@ func c12Samples(c *mc.Check, maxLen int) {
 					xs[i] = 1e9 + float64((i*7919)%n)/3
 				case 3:
 					xs[i] = math.Ldexp(1, (i*37)%60-30)
+				case 4:
+					xs[i] = 1e-7 * (1 + float64(i%5)/8)
+				case 5:
+					xs[i] = 1e7 * (1 + float64(i%5)/8)
+				case 6:
+					if i < n/2 {
+						xs[i] = 1e-7 * (1 + float64(i%3)/4)
+					} else {
+						xs[i] = 1e7 * (1 + float64(i%3)/4)
+					}
+				case 7:
+					if i%2 == 0 {
+						xs[i] = 1.5e-7
+					} else {
+						xs[i] = 2.5e7
+					}
 				}
 			}
 			var msg string
